@@ -3962,3 +3962,152 @@ def ob_tour_step(ctx, n_acts, closed):
         res.status, res.detail = 'inconclusive', 'vacuous'
     res.time = time.time() - t0
     return res
+
+
+# ---------------------------------------------------------------------------------------------------------------------
+# C05 / C01 (group feature): the per-route group tags after the solution-level refresh, and the rule evaluated on them
+
+def ob_group_state(ctx, jobs_per_route):
+    """C05 (group tags) + C01 (group rule): `GroupState::accept_solution_state` (real MIR) on a solution whose routes carry
+    jobs with a symbolic group each (none / g1 / g2), ARBITRARY previous tags (absent, empty or an outdated set) and an
+    arbitrary stale flag per route: afterwards every route's tag set equals the groups of the jobs in its tour - whatever
+    the flag and the previous tag were (history independence).  `GroupConstraint::evaluate` (real MIR) for a job of a
+    symbolic group on route 0 then rejects exactly when another route serves a job of that group."""
+    from symex import AMapV
+    name = f'group_state[jobs per route={"+".join(map(str, jobs_per_route))}]'
+    res = Result(name)
+    res.bounds = (f'{len(jobs_per_route)} routes with {jobs_per_route} single jobs; group of every job and of the evaluated job symbolic in {{none, g1, g2}}; previous tag of a route: '
+                  'absent / empty / {g-old} / {g1}; stale flag symbolic; complete problem (total job count matches)')
+    t0 = time.time()
+    st_fns = ctx.prog.find_method('GroupState', 'accept_solution_state')
+    ev_fns = ctx.prog.find_method('GroupConstraint', 'evaluate')
+    if len(st_fns) != 1 or len(ev_fns) != 1:
+        raise Inconclusive('GroupState::accept_solution_state / GroupConstraint::evaluate not found')
+    GROUPS = (None, 'g1', 'g2')
+
+    class Env(drivers.Env):
+        symbolic_maps = True
+
+        def override(self, engine, st, callee, args, dest_ty):
+            if callee.endswith('Activity::retrieve_job'):
+                return NotImplemented
+            if callee.endswith('Multi::roots'):
+                return mk_option(False, ty=dest_ty)
+            return super().override(engine, st, callee, args, dest_ty)
+
+    env = Env(ctx.prog, ctx.layout, 8)
+    eng = symex.Engine(ctx.prog, ctx.layout, env)
+    total_jobs = sum(jobs_per_route) + 1
+
+    def body(st):
+        env.assumptions.clear()
+        z = FV.const(0)
+
+        def single(name_, group):
+            dim = {'job_id': Opaque(f'"{name_}"')}
+            if group is not None:
+                dim['job_group'] = Opaque(f'"{group}"')
+            return ArcV(Cell(env.struct('jobs::Single', places=VecV([]), dimens=StateV(dim))))
+        routes, truth, flags = [], [], []
+        prevs = []
+        for r, n in enumerate(jobs_per_route):
+            acts = [env.activity(IV(0), z, z, FV.max_value(), z, z, has_job=False)]
+            jobs, groups = [], []
+            for j in range(n):
+                g = z3.Int(f'group_r{r}_j{j}')
+                grp = eng.choose(st, [(g == i, x) for i, x in enumerate(GROUPS)])
+                s_ = single(f'job_r{r}_{j}', grp)
+                acts.append(env.activity(IV(0), z, z, FV.max_value(), z, z, job=s_))
+                jobs.append(EnumV('jobs::Job', 0, {0: [s_]}))
+                if grp is not None and grp not in groups:
+                    groups.append(grp)
+            acts.append(env.activity(IV(0), z, z, FV.max_value(), z, z, has_job=False))
+            actor = env.actor(IV(0), z, IV(0), FV.const(1000))
+            tour = env.struct('solution::tour::Tour', activities=VecV(acts), jobs=AMapV([(jv, UnitV()) for jv in jobs], True), is_closed=BV(True))
+            route = env.struct('route::Route', actor=actor, tour=tour)
+            p = z3.Int(f'previous_tag_r{r}')
+            prev = eng.choose(st, [(p == 0, 'absent'), (p == 1, 'empty'), (p == 2, 'old'), (p == 3, 'g1')])
+            prevs.append(prev)
+            state = StateV({} if prev == 'absent' else {'current_groups': AMapV([] if prev == 'empty' else [(Opaque('"g-old"' if prev == 'old' else '"g1"'), UnitV())], True)})
+            stale = z3.Bool(f'stale_r{r}')
+            cache = env.struct('context::RouteCache', is_stale=BV(stale))
+            routes.append(env.struct('context::RouteContext', route=route, state=state, cache=cache))
+            truth.append(groups)
+            flags.append(stale)
+        sol = env.struct('context::SolutionContext', required=VecV([]), ignored=VecV([]), unassigned=AMapV(), locked=AMapV(is_set=True), routes=VecV(routes),
+                         registry=Opaque('registry'), state=StateV())
+        cell = Cell(sol)
+        feature_state = Agg('struct', [], 'groups::GroupState')
+        eng.exec_fn(st, st_fns[0], [RefV(Cell(feature_state), 0), RefV(cell, 0, True)])
+        # the job under evaluation (it is the one job of the plan that is not in a tour: required)
+        g = z3.Int('group_of_evaluated_job')
+        grp = eng.choose(st, [(g == i, x) for i, x in enumerate(GROUPS)])
+        job = EnumV('jobs::Job', 0, {0: [single('evaluated', grp)]})
+        env.field(cell.v, 'context::SolutionContext', 'required').items.append(job)
+        now = env.field(cell.v, 'context::SolutionContext', 'routes').items
+        move = EnumV('context::MoveContext', 0, {0: [RefV(cell, 0), RefV(Cell(now[0]), 0), RefV(Cell(job), 0)]})
+        constraint = env.struct('groups::GroupConstraint', total_jobs=IV(total_jobs), code=Agg('struct', [IV(7, 'i32')], 'ViolationCode'))
+        verdict = eng.exec_fn(st, ev_fns[0], [RefV(Cell(constraint), 0), RefV(Cell(move), 0)])
+        truth.append(prevs)          # carried along for the ordering below (removed again before use)
+        return (truth, grp, now, verdict)
+
+    paths = eng.explore(body, max_paths=40000)
+    res.paths = len(paths)
+    res.functions |= eng.functions_used
+    saw_ok = saw_rej = False
+
+    def observable_first(item):
+        # paths whose VERDICT is wrong first: they are the ones a native run can show (the tags themselves are crate-private)
+        _, out = item
+        if out is None:
+            return 1
+        truth, grp, _, verdict = out
+        prevs_, truth = truth[-1], truth[:-1]
+        rej = verdict.variant()
+        must = grp is not None and any(grp in t for t in truth[1:])
+        wrong = rej is not None and bool(rej) != must
+        # a previous tag other than 'absent' cannot be produced through the public API
+        return 0 if (wrong and all(p == 'absent' for p in prevs_)) else 1 if wrong else 2
+    paths = sorted(paths, key=observable_first)
+    for _, out_ in paths:
+        if out_ is not None and isinstance(out_[0][-1], list) and out_[0] and all(isinstance(x, str) for x in out_[0][-1]) and len(out_[0]) == len(jobs_per_route) + 1:
+            out_[0].pop()
+    for st, out in paths:
+        if out is None:
+            if not no_panic(ctx, res, env, st, what=name):
+                break
+            continue
+        truth, grp, now, verdict = out
+        problems = []
+        for r, rc in enumerate(now):
+            tag = env.field(rc, 'context::RouteContext', 'state').table.get('current_groups')
+            got = sorted(deref_all(k).name.strip('"') for k, _ in tag.entries) if tag is not None else None
+            if got != sorted(truth[r]):
+                problems.append(f'route {r}: cached groups {got}, groups of the jobs in the tour {sorted(truth[r])}')
+        must_reject = grp is not None and any(grp in t for t in truth[1:])
+        rejected = verdict.variant()
+        if rejected is None:
+            res.status, res.detail = 'inconclusive', 'symbolic verdict'
+            break
+        if bool(rejected) != must_reject:
+            problems.append(f'a job of group {grp} on route 0 is {"rejected" if rejected else "accepted"} while the other routes serve groups {truth[1:]}')
+        if not decide_claim(ctx, res, env, st, z3.BoolVal(not problems), what=f'{name}: ' + '; '.join(problems)[:400]):
+            if res.status == 'violated' and res.model is not None:
+                m = res.model
+                GR = (None, 'g1', 'g2')
+                evi = lambda nme: m.eval(z3.Int(nme), model_completion=True).as_long()
+                res.case = {'kind': 'group_state', 'group': grp,
+                            'routes': [{'groups': [GR[evi(f'group_r{r}_j{j}')] for j in range(n)],
+                                        'stale': bool(z3.is_true(m.eval(z3.Bool(f'stale_r{r}'), model_completion=True))),
+                                        'previous_tag': ('absent', 'empty', 'old', 'g1')[evi(f'previous_tag_r{r}')]} for r, n in enumerate(jobs_per_route)]}
+            break
+        if not no_panic(ctx, res, env, st, what=name):
+            break
+        saw_ok = saw_ok or not must_reject
+        saw_rej = saw_rej or must_reject
+    if res.status == 'holds':
+        res.witnesses = int(saw_ok) + int(saw_rej)
+        if len(jobs_per_route) > 1 and not (saw_ok and saw_rej):
+            res.status, res.detail = 'inconclusive', f'vacuous: accepted={saw_ok} rejected={saw_rej}'
+    res.time = time.time() - t0
+    return res
